@@ -4,6 +4,7 @@ Require Import BB.Base.Str BB.Base.Xml BB.Base.Dict BB.Model.PegSyntax BB.Model.
 Require Import BB.Model.EidSpec BB.Model.XmlGen BB.Model.Post.
 Require Import Permutation.
 Require Import BB.Proofs.PegSpan BB.Proofs.XmlText BB.Proofs.PostConserve.
+Require Import BB.Model.Convert BB.Gen.TablesLibs BB.Proofs.PegLine BB.Proofs.LineRule BB.Proofs.PlainLineConvert BB.Proofs.PreParseStair BB.Proofs.HierElement BB.Proofs.HierElementConvert BB.Proofs.HierChainConvert.
 
 (* grammar stage, for every grammar, expression, input and offset: a successful match consumes a
    prefix of what remained, the node spans exactly that prefix, and the offset advances by its length *)
@@ -47,3 +48,16 @@ Theorem C03_footnote_resolution_keeps_content : forall x y,
     /\ Forall (fun s => fst (fst s) = DISPLACED) used /\ Forall (fun s => s = ph_sig) phs.
 Proof. exact displaced_conserves. Qed.
 Print Assumptions C03_footnote_resolution_keeps_content.
+
+(* Through the whole pipeline model, for nests of hierarchical elements of any depth: the text nodes of the converted document, in
+   document order, are exactly the nums, the headings and the line as they were written - nothing lost, nothing invented, nothing
+   reordered (Proofs/HierChainConvert.v). *)
+Theorem C03_nest_conversion_keeps_text : forall uri prefix l0 (lv : list (nat * plevel)) kt t root_meta att_meta x,
+  assoc_str uri meta_templates = Some (root_meta, att_meta) ->
+  Forall plevel_full (l0 :: map snd lv) ->
+  growing 0 (map (fun kl => (fst kl, header (snd kl))) lv ++ [(kt, t)]) ->
+  plain_text t -> none_starts block_lits t = true -> p_safe t = true -> starts_with SUBH t = false -> no_ctl_start t = true ->
+  convert uri (of_string "hier_element") prefix (stair_text ((0%nat, header l0) :: rows_of lv kt t)) = OkR x ->
+  xtexts x = flat_map (fun l : plevel => let '(_, n, h) := l in [n; h]) (l0 :: map snd lv) ++ [t].
+Proof. exact nest_conversion_keeps_text. Qed.
+Print Assumptions C03_nest_conversion_keeps_text.
